@@ -243,7 +243,12 @@ pub fn run_grevm(
             last_spins = spins;
             // Stable: no event for >= 3 samples, nobody inside an injected delay, a database call or
             // an execution, and the workers demonstrably get CPU time (they spin in next()).
-            if stable >= 3 && spinning && !cancelled {
+            // ... or no worker is left at all and every remaining coordinator is parked.
+            let no_workers = o.alive[1].load(Ordering::Relaxed) == 0;
+            let coordinators_parked = o.alive[2].load(Ordering::Relaxed) == o.parked[2].load(Ordering::Relaxed) &&
+                o.alive[3].load(Ordering::Relaxed) == o.parked[3].load(Ordering::Relaxed) &&
+                o.parked[2].load(Ordering::Relaxed) + o.parked[3].load(Ordering::Relaxed) > 0;
+            if stable >= 3 && (spinning || (no_workers && coordinators_parked)) && !cancelled {
                 let dump = scheduler.verif_dump();
                 stall = Some(classify_stall(&dump, n));
                 scheduler.verif_cancel();
